@@ -1,6 +1,7 @@
 """C15 - decay_time returns the time at which total activity reaches the target."""
 from contracts import activation as A
 
+from contracts import activation as ACTV
 ID = "C15"
 LEVEL = "other"
 TRUSTED = ["oracle: A(t) = sum_i A_i(0) 2^(-t/T_i) recomputed from Sample.activity with an independent reader of the half-lives"]
@@ -8,7 +9,7 @@ EXPLANATION = "see DESIGN.md C15"
 
 
 def units(tier):
-    return [A.U_FIND_ROOT] + A.U_DECAY_TIME + [A.U_DECAY_TIME_EMPTY, A.L_DF]
+    return ([A.U_FIND_ROOT] + A.U_DECAY_TIME + [A.U_DECAY_TIME_EMPTY, A.L_DF]) + ACTV.U_SAMPLE_INIT
 
 
 def runner_tasks(tier):
